@@ -30,7 +30,7 @@ ASSUMPTIONS = [
     "dns.message.time is replaced by a virtual clock",
     "a flipped bit the reference still authenticates (message ID, ASCII case of key/algorithm name letters) may be accepted",
 ]
-REQUIRED = ["mon.mac_equals_reference", "mon.lib_accepts_own", "mon.ref_accepts_lib", "mon.lib_accepts_ref_sequence", "mon.bitflip", "mon.fault_rejected", "mon.multi_envelope"]
+REQUIRED = ["mon.direct_renderer_signing", "mon.mac_equals_reference", "mon.lib_accepts_own", "mon.ref_accepts_lib", "mon.lib_accepts_ref_sequence", "mon.bitflip", "mon.fault_rejected", "mon.multi_envelope"]
 BUDGET = {"quick": 45.0, "thorough": 480.0}
 
 ALGS = list(RT.ALGS)
@@ -375,9 +375,48 @@ def check_sequence(ctx, rng, algtext):
         ctx.violation(f"tsig-sequence-raised:{algtext}:" + core.exc_sig(e), repr(e), case)
 
 
+def check_direct_renderer(ctx, rng, algtext):
+    """dns.renderer.Renderer.add_tsig / add_multi_tsig called directly with a Key object (its documented low-level use), the
+    algorithm parameter left at its default: the TSIG record must name the key's algorithm and carry the RFC 8945 MAC"""
+    import dns.renderer
+
+    ctx.count("evaluations")
+    ctx.count("mon.direct_renderer_signing")
+    kl, secret, key = mkkey(rng, algtext)
+    now = rng.choice((1_700_000_000, 2**33 + 5))
+    clock = Clock(now)
+    case = {"kind": "direct-renderer", "alg": algtext}
+    req_mac = b"" if rng.random() < 0.5 else bytes(rng.randrange(256) for _ in range(len(RT.mac(algtext, secret, b"x"))))
+    multi = rng.random() < 0.4
+    try:
+        r = dns.renderer.Renderer(id=rng.randrange(65536), flags=0x8000)
+        r.add_question(dns.name.from_text("direct.example."), dns.rdatatype.A)
+        r.write_header()
+        with swap_attr(dns.renderer, "time", clock):
+            if multi:
+                r.add_multi_tsig(None, key.name, key, 300, r.id, 0, b"", req_mac)
+            else:
+                r.add_tsig(key.name, key, 300, r.id, 0, b"", req_mac)
+        w = r.get_wire()
+        s = RT.Split(w)
+    except Exception as e:
+        ctx.violation(f"direct-renderer-signing-raised:{algtext.lower()}:" + core.exc_sig(e), repr(e), case)
+        return
+    ctx.seen(("direct-renderer", algtext.lower(), multi, bool(req_mac)))
+    want = RT.mac(algtext, secret, RT.digest_input(s, request_mac=req_mac))
+    if s.mac != want:
+        ctx.violation(f"direct-renderer-mac-differs-from-rfc8945:{algtext.lower()}", f"lib {s.mac.hex()} ref {want.hex()}", dict(case, wire=w))
+        return
+    m2, e = lib_validate(w, key, clock, req_mac, multi=multi)
+    if e is not None:
+        ctx.violation(f"direct-renderer-signed-message-rejected:{algtext.lower()}:" + core.exc_sig(e), repr(e), dict(case, wire=w))
+
+
 def run(spec, ctx):
     rng = ctx.rng
     flips_done = 0
+    for i in range(40):
+        check_direct_renderer(ctx, rng, ALGS[(i + spec["alg_offset"]) % len(ALGS)])
     for i in range(spec["n_msgs"]):
         if ctx.expired(0.35):
             break
